@@ -291,7 +291,7 @@ def unit(mode="exact", tier="quick", seed=0, shard=0, nshards=1, only=None, assi
             _merge(agg, _one(mode, n, prog, label, assignment), label)
     obligations = list(agg.values())
     for o in obligations:
-        if o["result"] == "refuted":
+        if o["result"] in ("refuted", "bounded-fail"):
             o["replay_spec"] = dict(module="vf.tasks.t_compile", func="replay", args=[o["model"].get("program"), o["model"]])
     return dict(status="ok", obligations=obligations, summary=f"shard {shard}/{nshards}: {nprog} programs, {npaths} symbolic paths",
                 functions=[dict(function="lightworks/sdk/circuit/circuit.py:Circuit.U/U_full (+ bs/ps/loss/barrier/mode_swaps/add, compiler, components)",
